@@ -118,7 +118,15 @@ func (tg *c15TypeGen) typ(depth int) sast.IsType {
 }
 
 // C15GenSchema builds a random schema AST and resolves it through the real resolver.
-func (g *Gen) C15GenSchema(frag bool) (*C15Schema, error) {
+func (g *Gen) C15GenSchema(frag bool) (*C15Schema, error) { return g.c15GenSchema(false) }
+
+// C15GenSchemaHier: the same kind of schema with a richer memberOf hierarchy: 5-7 entity types, long chains
+// (each type is mostly a member of the next one declared) next to unrelated types; the type NAMES are assigned at
+// random, so the sorted order of the names is independent of the hierarchy order.
+func (g *Gen) C15GenSchemaHier() (*C15Schema, error) { return g.c15GenSchema(true) }
+
+func (g *Gen) c15GenSchema(hier bool) (*C15Schema, error) {
+	frag := false
 	// Since the entity extension of the Lean model (has / . on entity types, in, is, is..in, getTag, hasTag, every
 	// scope form) the "fragment" is the whole expression language: the schemas of the fragment stream are full
 	// schemas (attributes, tags, memberOf, enums, namespaces, action groups) and its policies use every operator.
@@ -134,6 +142,9 @@ func (g *Gen) C15GenSchema(frag bool) (*C15Schema, error) {
 	nT := 3 + g.pick(3)
 	if frag {
 		nT = 2 + g.pick(2)
+	}
+	if hier {
+		nT = 5 + g.pick(3)
 	}
 	perm := g.R.Perm(len(c15TypeNames))[:nT]
 	type decl struct {
@@ -181,7 +192,14 @@ func (g *Gen) C15GenSchema(frag bool) (*C15Schema, error) {
 		if !frag {
 			// acyclic memberOf: parents only among later declarations
 			for j := i + 1; j < len(decls); j++ {
-				if g.chance(0.45) {
+				pEdge := 0.45
+				if hier {
+					pEdge = 0.2
+					if j == i+1 {
+						pEdge = 0.65
+					}
+				}
+				if g.chance(pEdge) {
 					e.ParentTypes = append(e.ParentTypes, sast.EntityTypeRef(decls[j].full))
 				}
 			}
@@ -493,7 +511,7 @@ func (c *C15Gen) enumerate() {
 
 // C15Mutations are the near-miss kinds; "" = well-typed by construction.
 var C15Mutations = []string{"wrong-type", "missing-guard", "guard-misplaced", "wrong-entity-type", "mixed-cmp", "bad-call",
-	"dead-branch", "bad-literal", "path-collision", "tag-collision", "lub-drop", "untyped-call"}
+	"dead-branch", "bad-literal", "path-collision", "tag-collision", "lub-drop", "untyped-call", "in-lub-guard", "singleton-caps", "lub-attr", "in-operand-type", "action-in-mixed", "clause-caps"}
 
 type C15Gen struct {
 	G       *Gen
@@ -506,6 +524,9 @@ type C15Gen struct {
 	paths   []c15Path
 	caps    map[string]bool
 	junk    int
+	MutP    float64    // probability that a template-style near-miss fires at a given node (0 = default 0.5)
+	Shapes  []string   // which shapes the in-lub-guard / singleton-caps generators built (evidence only)
+	Probe   ast.IsNode // the `in` test built by in-lub-guard (the harness measures how often it is true at run time)
 }
 
 func NewC15Gen(g *Gen, s *C15Schema, env C15Env) *C15Gen {
@@ -1332,6 +1353,46 @@ func (c *C15Gen) boolExpr(d int) ast.IsNode {
 			if c.mutHere("lub-drop", 0.5) {
 				return c.lubDrop(d)
 			}
+		case "in-lub-guard":
+			if !c.Frag && c.chance(c.mutP()) {
+				c.MutDone = true // set first: the sub-expressions built below must not start another one
+				if n, ok := c.inLubGuard(d); ok {
+					return n
+				}
+				c.MutDone = false
+			}
+		case "singleton-caps":
+			if c.chance(c.mutP()) {
+				c.MutDone = true
+				if n, ok := c.singletonCaps(d); ok {
+					return n
+				}
+				c.MutDone = false
+			}
+		case "lub-attr":
+			if c.chance(c.mutP()) {
+				c.MutDone = true
+				if n, ok := c.lubAttr(d); ok {
+					return n
+				}
+				c.MutDone = false
+			}
+		case "in-operand-type":
+			if !c.Frag && c.chance(c.mutP()) {
+				c.MutDone = true
+				if n, ok := c.inOperandType(d); ok {
+					return n
+				}
+				c.MutDone = false
+			}
+		case "action-in-mixed":
+			if !c.Frag && c.chance(c.mutP()) {
+				c.MutDone = true
+				if n, ok := c.actionInMixed(d); ok {
+					return n
+				}
+				c.MutDone = false
+			}
 		}
 	}
 	switch k := c.pick(24); {
@@ -1442,9 +1503,11 @@ func (c *C15Gen) boolExpr(d int) ast.IsNode {
 type C15Policy struct {
 	AST    *ast.Policy
 	Target C15Env
-	Mut    string // requested near-miss kind ("" = none)
-	Hit    bool   // the mutation site was reached
-	Strict bool   // generated with strict mode in mind
+	Mut    string     // requested near-miss kind ("" = none)
+	Hit    bool       // the mutation site was reached
+	Strict bool       // generated with strict mode in mind
+	Shapes []string   // see C15Gen.Shapes
+	Probe  ast.IsNode // see C15Gen.Probe
 }
 
 func (g *Gen) c15AncestorUID(s *C15Schema, t types.EntityType) (types.EntityUID, bool) {
@@ -1461,11 +1524,22 @@ func (g *Gen) c15AncestorUID(s *C15Schema, t types.EntityType) (types.EntityUID,
 }
 
 // C15GenPolicy generates one policy aimed at a random environment of the schema.
-func (g *Gen) C15GenPolicy(s *C15Schema, mut string) C15Policy {
+func (g *Gen) C15GenPolicy(s *C15Schema, mut string) C15Policy { return g.c15GenPolicy(s, mut, false) }
+
+// C15GenPolicyFocus: the same, for the focused stream: the near-miss template fires near the root of the condition and
+// the scope pins the target environment more often (fewer rejections for reasons unrelated to the template).
+func (g *Gen) C15GenPolicyFocus(s *C15Schema, mut string) C15Policy {
+	return g.c15GenPolicy(s, mut, true)
+}
+
+func (g *Gen) c15GenPolicy(s *C15Schema, mut string, focus bool) C15Policy {
 	env := s.Envs[g.pick(len(s.Envs))]
 	c := NewC15Gen(g, s, env)
 	c.Strict = g.chance(0.6)
 	c.Mut = mut
+	if focus {
+		c.MutP = 0.85
+	}
 	p := &ast.Policy{Effect: ast.Effect(g.chance(0.7)), Principal: ast.ScopeTypeAll{}, Action: ast.ScopeTypeAll{}, Resource: ast.ScopeTypeAll{}}
 	scopeFor := func(t types.EntityType) (ast.IsScopeNode, bool) { // returns scope, pinsType
 		if s.Frag {
@@ -1474,7 +1548,11 @@ func (g *Gen) C15GenPolicy(s *C15Schema, mut string) C15Policy {
 			}
 			return ast.ScopeTypeAll{}, false
 		}
-		switch g.pick(7) {
+		k7 := g.pick(7)
+		if focus && g.chance(0.5) {
+			k7 = 0
+		}
+		switch k7 {
 		case 0, 1, 2:
 			return ast.ScopeTypeIs{Type: t}, true
 		case 3:
@@ -1503,11 +1581,25 @@ func (g *Gen) C15GenPolicy(s *C15Schema, mut string) C15Policy {
 	if s.Frag && k6 >= 3 {
 		k6 = 5
 	}
+	if focus && g.chance(0.6) {
+		k6 = 0
+	}
 	switch k6 {
 	case 0, 1, 2:
 		p.Action = ast.ScopeTypeEq{Entity: env.Action}
 	case 3:
-		p.Action = ast.ScopeTypeInSet{Entities: []types.EntityUID{env.Action}}
+		set := []types.EntityUID{env.Action}
+		if g.chance(0.5) { // a set mixing the target action (or one of its groups) with other actions / groups, any order
+			if cl := s.ActionClosure(env.Action); len(cl) > 0 && g.chance(0.4) {
+				set[0] = cl[g.pick(len(cl))]
+				aPinned = false
+			}
+			for n := 1 + g.pick(2); n > 0; n-- {
+				set = append(set, s.ActionUIDs[g.pick(len(s.ActionUIDs))])
+			}
+			g.R.Shuffle(len(set), func(i, j int) { set[i], set[j] = set[j], set[i] })
+		}
+		p.Action = ast.ScopeTypeInSet{Entities: set}
 	case 4:
 		cl := s.ActionClosure(env.Action)
 		if len(cl) > 0 {
@@ -1527,13 +1619,33 @@ func (g *Gen) C15GenPolicy(s *C15Schema, mut string) C15Policy {
 			p.Resource = ast.ScopeTypeEq{Entity: types.NewEntityUID("Nope", "a")}
 		}
 	}
-	nc := 1
-	if g.chance(0.2) {
-		nc = 2
+	var clauses []c15Clause
+	if mut == "clause-caps" && !c.MutDone {
+		c.MutDone = true
+		if cl, ok := c.clauseCaps(); ok {
+			clauses = cl
+		} else {
+			c.MutDone = false
+		}
 	}
-	for i := 0; i < nc; i++ {
-		d := 2 + g.pick(3)
-		body := c.boolExpr(d)
+	if clauses == nil {
+		nc := 1
+		if g.chance(0.2) {
+			nc = 2
+			if g.chance(0.2) {
+				nc = 3
+			}
+		}
+		for i := 0; i < nc; i++ {
+			d := 2 + g.pick(3)
+			if focus {
+				d = 2 + g.pick(2)
+			}
+			clauses = append(clauses, c15Clause{when: g.chance(0.8), body: c.boolExpr(d)})
+		}
+	}
+	for _, cl := range clauses {
+		body := cl.body
 		// pin what the scope leaves open so that the body is typed in the target environment only
 		if !s.Frag {
 			if !pPinned && g.chance(0.8) {
@@ -1544,16 +1656,15 @@ func (g *Gen) C15GenPolicy(s *C15Schema, mut string) C15Policy {
 			}
 		}
 		_ = aPinned
-		when := g.chance(0.8)
-		if !when {
+		if !cl.when && !cl.raw { // a generated condition turned into the equivalent `unless`
 			body = notN(body)
 			if g.chance(0.5) {
 				body = iteN(body, lit(types.True), lit(types.False))
 			}
 		}
-		p.Conditions = append(p.Conditions, ast.ConditionType{Condition: ast.Condition(when), Body: body})
+		p.Conditions = append(p.Conditions, ast.ConditionType{Condition: ast.Condition(cl.when), Body: body})
 	}
-	return C15Policy{AST: p, Target: env, Mut: mut, Hit: c.MutDone || mut == "", Strict: c.Strict}
+	return C15Policy{AST: p, Target: env, Mut: mut, Hit: c.MutDone || mut == "", Strict: c.Strict, Shapes: c.Shapes, Probe: c.Probe}
 }
 
 // ---------------------------------------------------------------------------------------------
